@@ -56,13 +56,17 @@ def _mk_population(prng, now):
     def mk_wf(project, state, updated, parent_task=None, root=None,
               depth=0):
         wid = new_id('w')
+        # a long-running execution was created long before it finished: the
+        # age the policy is about is the time since it last changed
+        created = updated - datetime.timedelta(
+            minutes=prng.choice([0, 0, 1, 45, 600, 10 ** 5]))
         db_api.create_workflow_execution({
             'id': wid, 'name': 'wf', 'workflow_name': 'wf', 'spec': {},
             'state': state, 'project_id': project, 'output': {},
             'params': {}, 'input': {}, 'context': {},
             'runtime_context': {},
             'task_execution_id': parent_task, 'root_execution_id': root,
-            'updated_at': updated, 'created_at': updated,
+            'updated_at': updated, 'created_at': created,
         })
         nodes = [('wf', wid)]
         for _ in range(prng.choice([0, 1, 1, 2, 3])):
